@@ -125,7 +125,26 @@ def sym_groups(tier, seed):
             calls = ['VWF(Sym%d, %s, %s, %s, "%s");' % (sz, tup(rd), tup(dims), fs, s) for s in sc]
             groups.append({"key": "%s/sz%d/vea%d/%s" % (isa, sz, vea, name), "header": "view_write_sym.h", "isa": isa, "opt": "-O0",
                            "defs": ["-DFASTOR_USE_VECTORISED_EXPR_ASSIGN"] if vea else [], "calls": calls})
+        # the writable diagonal view diag(A): quick = two configurations
+        if not quick or ci in (seed % 7, (seed + 3) % 7):
+            M = V + 1
+            r2 = random.Random(rng.random())
+            sc = diag_scripts(M, r2, 16 if quick else 80, G.OPS)
+            calls = ['VWD(Sym%d, (%d), (%d,%d), "%s");' % (sz, M, M, M, s) for s in sc]
+            groups.append({"key": "%s/sz%d/vea0/diag" % (isa, sz), "header": "view_write_sym.h", "isa": isa, "opt": "-O0", "defs": [], "calls": calls})
     return only_filter(groups)
+
+def diag_scripts(M, rng, count, ops):
+    dst = "0_%d_1,0_%d_1" % (M, M)          # ignored by the diagonal view; kept for the line format
+    out = []
+    for k in range(count):
+        ws = []
+        for _ in range(1 if k < count // 2 else rng.randint(2, 4)):
+            op = rng.choice(ops); rk = rng.choice("sstxm")
+            c = rng.choice([2, 4, -2]) if op == "div" else rng.choice([2, 3, 5, -1, -4, 7])
+            ws.append("%s.%s.%d.%s" % (op, rk, c, dst))
+        out.append("/".join(ws))
+    return out
 
 REAL_TYPES = [("float", 4), ("double", 8), ("int32_t", 4), ("int64_t", 8)]
 
@@ -165,6 +184,19 @@ def real_groups(tier, seed):
                     groups.append({"key": "real/%s/%s/vea%d/%s" % (isa, t, vea, name), "header": "view_write_real.h", "isa": isa, "opt": "-O2",
                                    "defs": ["-ffp-contract=off"] + (["-DFASTOR_USE_VECTORISED_EXPR_ASSIGN"] if vea else []),
                                    "pre": "", "calls": calls})
+        # diag(A) on the real types: one cell per ISA (quick), all (thorough)
+        ci = 0
+        for isa in isas:
+            for (t, sz) in REAL_TYPES:
+                ci += 1
+                if quick and (ci + seed + (ci - 1) // 4) % 4:
+                    continue
+                M = G.vwidth(isa, sz) + 1
+                r2 = random.Random(rng.random())
+                sc = diag_scripts(M, r2, 20 if quick else 100, G.OPS5)
+                calls = ['VWRD(%s, (%d), (%d,%d), %du, "%s");' % (t, M, M, M, seed * 1000 + k, s) for k, s in enumerate(sc)]
+                groups.append({"key": "real/%s/%s/vea0/diag" % (isa, t), "header": "view_write_real.h", "isa": isa, "opt": "-O2",
+                               "defs": ["-ffp-contract=off"], "pre": "", "calls": calls})
     finally:
         G.REVERSED_P[0] = 0.0
     return only_filter(groups)
@@ -185,8 +217,10 @@ def sym_call_of(inp):
     d = symrun.kv(inp)
     dims = tuple(int(x) for x in d["dims"].split("x")); rd = tuple(int(x) for x in d["rd"].split("x"))
     g = {"key": "replay", "header": "view_write_sym.h", "isa": d["cfg"], "opt": "-O0",
-         "defs": ["-DFASTOR_USE_VECTORISED_EXPR_ASSIGN"] if d.get("vea") == "1" else []}
-    if d["cls"] == "fix":
+         "defs": (["-DFASTOR_USE_VECTORISED_EXPR_ASSIGN"] if d.get("vea") == "1" else []) + (["-DFASTOR_NO_ALIAS=1"] if d.get("nal") == "1" else [])}
+    if d["cls"] == "diag":
+        g["calls"] = ['VWD(Sym%s, %s, %s, "%s");' % (d["sz"], tup(rd), tup(dims), d["W"])]
+    elif d["cls"] == "fix":
         dst = d["W"].split("/")[0].split(".")[3]
         fs = "(" + ", ".join("fseq<%s>" % ax.replace("_", ",") for ax in dst.split(",")) + ")"
         g["calls"] = ['VWF(Sym%s, %s, %s, %s, "%s");' % (d["sz"], tup(rd), tup(dims), fs, d["W"])]
